@@ -8,6 +8,7 @@ cd "$(dirname "$0")/.."
 N=${1:-240}; shift
 PROPS=${@:-C01 C02 C03 C04 C05 C06 C07 C08 C09 C10 C11 C12 C13 C14 C15 C16 C17 C18 C19 C20}
 T=$(mktemp -d /var/tmp/verif-det-XXXX)
+export VERIF_OUTDIR=$T/out
 bad=0
 for p in $PROPS; do
   ./bin/check -p $p -budget 600 -workers 4 -maxruns $((N/4)) -hashes $T/a.txt -noshrink >/dev/null 2>&1
